@@ -59,7 +59,7 @@ func runC07(c *Ctx) {
 	c.rule("Z7", "zip: the archive is written into a handle that starts empty (CreateFile, or OpenFile with O_TRUNC / O_EXCL) — a shorter archive written over a longer one keeps the old central directory at its end", 1)
 	c.rule("Z6", "extraction: the name of an entry — a path relative to the archive — is never handed to the filesystem as it is (it would be resolved against the working directory of the process); the filesystem only sees the sanitised extraction path", 1)
 	c.rule("Z4", "unzip: every way round the entry loop that creates an entry appends its path (or the paths of the nested extraction) to the list returned, in that same iteration", 2)
-	c.rule("Z2", "unzip: file times restored from the entry's info after the copy; directory infos recorded and restored after the loop before the successful return", 3)
+	c.rule("Z2", "unzip: file times restored from the entry's info after the copy; directory infos recorded and restored after the loop before the successful return; no deferred close of the written handle on the successful path", 4)
 
 	c.c07Guard()
 	c.c07GuardSemantics()
@@ -933,6 +933,43 @@ func (c *Ctx) c07UnzipTimes() {
 			pos = c.ipos(cht)
 		}
 		c.check(good, "Z2", fname(f)+"/chtimes", pos, "Chtimes(entry times) after the copy, before every successful return", why)
+		// … and once the times are set nothing touches the file any more on the successful path: a deferred Close of the handle
+		// written to runs after the Chtimes, and closing updates the modification time on some backends (afero's in-memory
+		// files). A deferred Close of that handle is admitted only where the error result is non-nil.
+		lateClose := ""
+		for _, lit := range f.AnonFuncs {
+			allInstrs(lit, func(in ssa.Instruction) {
+				cl, ok := in.(*ssa.Call)
+				if !ok || !cl.Call.IsInvoke() || cl.Call.Method.Name() != "Close" {
+					return
+				}
+				if !c07IsCreatedHandle(cl.Call.Value, f, 0) {
+					return
+				}
+				// on the non-nil side of a test of f's error result?
+				guarded := false
+				for _, b := range lit.Blocks {
+					ifi, isIf := b.Instrs[len(b.Instrs)-1].(*ssa.If)
+					if !isIf {
+						continue
+					}
+					x, nilSucc, isNil := nilTest(ifi)
+					if !isNil || !isErrorType(x.Type()) {
+						continue
+					}
+					if u, isU := x.(*ssa.UnOp); isU {
+						if _, isFV := u.X.(*ssa.FreeVar); isFV && edgeDominates(b, 1-nilSucc, cl.Block()) {
+							guarded = true
+						}
+					}
+				}
+				if !guarded {
+					lateClose = c.ipos(cl)
+				}
+			})
+		}
+		c.check(lateClose == "", "Z2", fname(f)+"/nothing-after-the-times", pos, "no deferred Close of the written handle runs on the successful path",
+			"the handle written to is closed (again) at "+lateClose+" in a deferred call, i.e. after the times of the file were restored: on backends where closing a file updates its modification time (the in-memory file system) every extracted file is dated 'now'")
 	}
 	g := c.fn(fsPkgRel, "(*VFS).unzip")
 	if g != nil {
